@@ -14,9 +14,9 @@ import (
 
 func ruleCommentPlaceholder(c *Ctx, rule string) {
 	pkg := modPath + "/io/featio/gff"
-	fn := c.fn("io/featio/gff", "(*Writer).Write")
-	c.Funcs[funcName(fn)] = true
 	key := "gff.(*Writer).Write/attribute-column-before-comment"
+	entry := c.fn("io/featio/gff", "(*Writer).Write")
+	c.Funcs[funcName(entry)] = true
 	mentions := func(call *ssa.Call, field string) bool {
 		found := false
 		var walk func(v ssa.Value, d int)
@@ -67,19 +67,24 @@ func ruleCommentPlaceholder(c *Ctx, rule string) {
 		}
 		return false
 	}
-	for _, b := range fn.Blocks {
-		for _, ins := range b.Instrs {
-			if call, ok := ins.(*ssa.Call); ok {
-				if sf := call.Call.StaticCallee(); sf != nil && sf.Pkg != nil && sf.Pkg.Pkg.Path() == "fmt" && strings.HasPrefix(sf.Name(), "Fprint") && mentions(call, "Comments") {
-					comment = call
+	// the function that writes the comment column: Write itself or a helper it hands the feature to
+	var fn *ssa.Function
+	for _, f := range pkgReach(entry) {
+		for _, b := range f.Blocks {
+			for _, ins := range b.Instrs {
+				if call, ok := ins.(*ssa.Call); ok {
+					if sf := call.Call.StaticCallee(); sf != nil && sf.Pkg != nil && sf.Pkg.Pkg.Path() == "fmt" && strings.HasPrefix(sf.Name(), "Fprint") && mentions(call, "Comments") {
+						comment, fn = call, f
+					}
 				}
 			}
 		}
 	}
 	if comment == nil {
-		c.und(rule, key, fn.Pos(), "the write of the comment column was not found")
+		c.und(rule, key, entry.Pos(), "the write of the comment column was not found")
 		return
 	}
+	c.Funcs[funcName(fn)] = true
 	if everyFeasiblePathPasses(fn, comment, isAttrColumn) {
 		c.ok(rule, key, comment.Pos(), "every path to the comment has written the attribute column or its tab placeholder")
 	} else {
@@ -101,6 +106,26 @@ func ruleTruncateStrict(c *Ctx, rule string) {
 			if ta, ok := ins.(*ssa.TypeAssert); ok {
 				if n, ok := ta.AssertedType.(*types.Named); ok && n.Obj().Name() == "Conformationer" {
 					mark = ins
+				}
+			}
+		}
+	}
+	if mark == nil {
+		// the wrapped case may have been moved into a helper: the call is the mark
+		isAssert := func(i ssa.Instruction) bool {
+			ta, ok := i.(*ssa.TypeAssert)
+			if !ok {
+				return false
+			}
+			n, ok := ta.AssertedType.(*types.Named)
+			return ok && n.Obj().Name() == "Conformationer"
+		}
+		for _, b := range fn.Blocks {
+			for _, ins := range b.Instrs {
+				if call, ok := ins.(*ssa.Call); ok {
+					if g := call.Call.StaticCallee(); g != nil && g.Pkg == fn.Pkg && g.Blocks != nil && containsVia(g, isAssert) {
+						mark = ins
+					}
 				}
 			}
 		}
